@@ -190,6 +190,71 @@ def check_oracle(ctx, rng, rec, inputs, output, size_dict, tree, arrays, slices)
     return bad
 
 
+def one_network(ctx, rng, ci, rec, inputs, output, size_dict, tree, ops, raises, sis, add, oracle_bad):
+    import numpy as np
+    from cotengra.core import get_slice_strides
+    ins, out, sz = net_parts(inputs, output, size_dict)
+    sl = sl_lit(tree)
+    st = st_lit(tree)
+    N = tree.nslices
+
+    # K1: the state after the history of remove_ind / restore_ind
+    add("state%d" % ci,
+        "(run_ops %s %s %s %s, run_ops_raises %s %s %s %s)" % (ins, out, sz, ops_lit(ops), ins, out, sz, ops_lit(ops)),
+        "(mkSS %s %d %s, %s)" % (sl, tree.multiplicity, coq(sorted(tree.sliced_inputs)), coq(raises)),
+        rec, "remove_ind/restore_ind: sliced_inds order, multiplicity, sliced_inputs")
+    add("ok%d" % ci, "sl_ok_b %s %s" % (out, st), "true", rec,
+        "verified checker sl_ok_b (hypotheses of the C06 theorems) on the real sliced_inds / multiplicity")
+    # K2: strides, every slice key, nslices / nchunks / stepsize
+    strides = get_slice_strides(tree.sliced_inds)
+    keys = [key_items(tree.slice_key(i)) for i in range(N)]
+    add("keys%d" % ci,
+        "(get_slice_strides %s, (map (slice_key %s) (seq 0 %d), (nchunks %s, stepsize %s)))" % (sl, sl, N, sl, sl),
+        coq((strides, keys, tree.nchunks, N // max(1, tree.nchunks))),
+        rec, "get_slice_strides / slice_key(i) for all i / nchunks")
+    # arrays
+    arrays = gen.rand_arrays(rng, inputs, size_dict)
+    slices = [np.asarray(tree.contract_slice(arrays, i)) for i in range(N)] if sis else [np.asarray(tree.contract(arrays))]
+    # K3: slice_arrays on arrays with pairwise distinct entries (pins down every selector)
+    darrs = []
+    for t in inputs:
+        shape = tuple(size_dict[ix] for ix in t)
+        darrs.append(np.arange(int(np.prod(shape, dtype=np.int64)) if shape else 1).reshape(shape))
+    for i in sorted(set([0, N - 1] + [rng.randrange(N) for _ in range(2)])):
+        real = tree.slice_arrays(darrs, i)
+        add("slarr%d_%d" % (ci, i),
+            "map tabulate (slice_arrays %s %s [%s] %d)" % (ins, st, "; ".join(tens_lit(a) for a in darrs), i),
+            coq([tab(a) for a in real]), rec, "slice_arrays selectors, slice %d" % i)
+    # K4: gather_slices on the real slices and on random integer slices of the same shape
+    if sis:
+        for variant in ("real", "random"):
+            if variant == "real":
+                sls = slices
+            else:
+                sls = [np.array([rng.randint(-9, 9) for _ in range(max(1, slices[0].size))]).reshape(slices[0].shape)
+                       for _ in range(N)]
+            try:
+                real = np.asarray(tree.gather_slices(iter(sls)))
+            except Exception as e:
+                ctx.fail("gather_slices raised %r" % (e,), rec)
+                continue
+            add("gather%d_%s" % (ci, variant),
+                "tabulate (gather_slices %s %s [%s])" % (sl, out, "; ".join(tens_lit(a) for a in sls)),
+                coq(tab(real)), rec, "gather_slices (%s slices)" % variant)
+        # K5: gen_output_chunks(with_key=True)
+        try:
+            chunks = [(tab(np.asarray(c)), key_items(k)) for c, k in tree.gen_output_chunks(arrays, with_key=True)]
+            add("chunks%d" % ci,
+                "map (fun ck => (tabulate (fst ck), snd ck)) (gen_output_chunks %s %s (fun i => nth i [%s] dummy_t))" % (
+                    st, out, "; ".join(tens_lit(a) for a in slices)),
+                coq(chunks), rec, "gen_output_chunks(with_key=True)")
+        except Exception as e:
+            ctx.fail("gen_output_chunks raised %r" % (e,), rec)
+    # oracle
+    if check_oracle(ctx, rng, rec, inputs, output, size_dict, tree, arrays, slices):
+        oracle_bad.add(ci)
+
+
 def run(ctx):
     if not standard_proof_steps(ctx):
         return
@@ -230,65 +295,12 @@ def run(ctx):
             feats.add("restore_op")
         for f in feats:
             ctx.count(f)
-        ins, out, sz = net_parts(inputs, output, size_dict)
-        sl = sl_lit(tree)
-        st = st_lit(tree)
-        N = tree.nslices
-
-        # K1: the state after the history of remove_ind / restore_ind
-        add("state%d" % ci,
-            "(run_ops %s %s %s %s, run_ops_raises %s %s %s %s)" % (ins, out, sz, ops_lit(ops), ins, out, sz, ops_lit(ops)),
-            "(mkSS %s %d %s, %s)" % (sl, tree.multiplicity, coq(sorted(tree.sliced_inputs)), coq(raises)),
-            rec, "remove_ind/restore_ind: sliced_inds order, multiplicity, sliced_inputs")
-        add("ok%d" % ci, "sl_ok_b %s %s" % (out, st), "true", rec,
-            "verified checker sl_ok_b (hypotheses of the C06 theorems) on the real sliced_inds / multiplicity")
-        # K2: strides, every slice key, nslices / nchunks / stepsize
-        strides = get_slice_strides(tree.sliced_inds)
-        keys = [key_items(tree.slice_key(i)) for i in range(N)]
-        add("keys%d" % ci,
-            "(get_slice_strides %s, (map (slice_key %s) (seq 0 %d), (nchunks %s, stepsize %s)))" % (sl, sl, N, sl, sl),
-            coq((strides, keys, tree.nchunks, N // max(1, tree.nchunks))),
-            rec, "get_slice_strides / slice_key(i) for all i / nchunks")
-        # arrays
-        arrays = gen.rand_arrays(rng, inputs, size_dict)
-        slices = [np.asarray(tree.contract_slice(arrays, i)) for i in range(N)] if sis else [np.asarray(tree.contract(arrays))]
-        # K3: slice_arrays on arrays with pairwise distinct entries (pins down every selector)
-        darrs = []
-        for t in inputs:
-            shape = tuple(size_dict[ix] for ix in t)
-            darrs.append(np.arange(int(np.prod(shape, dtype=np.int64)) if shape else 1).reshape(shape))
-        for i in sorted(set([0, N - 1] + [rng.randrange(N) for _ in range(2)])):
-            real = tree.slice_arrays(darrs, i)
-            add("slarr%d_%d" % (ci, i),
-                "map tabulate (slice_arrays %s %s [%s] %d)" % (ins, st, "; ".join(tens_lit(a) for a in darrs), i),
-                coq([tab(a) for a in real]), rec, "slice_arrays selectors, slice %d" % i)
-        # K4: gather_slices on the real slices and on random integer slices of the same shape
-        if sis:
-            for variant in ("real", "random"):
-                if variant == "real":
-                    sls = slices
-                else:
-                    sls = [np.array([rng.randint(-9, 9) for _ in range(max(1, slices[0].size))]).reshape(slices[0].shape)
-                           for _ in range(N)]
-                try:
-                    real = np.asarray(tree.gather_slices(iter(sls)))
-                except Exception as e:
-                    ctx.fail("gather_slices raised %r" % (e,), rec)
-                    continue
-                add("gather%d_%s" % (ci, variant),
-                    "tabulate (gather_slices %s %s [%s])" % (sl, out, "; ".join(tens_lit(a) for a in sls)),
-                    coq(tab(real)), rec, "gather_slices (%s slices)" % variant)
-            # K5: gen_output_chunks(with_key=True)
-            try:
-                chunks = [(tab(np.asarray(c)), key_items(k)) for c, k in tree.gen_output_chunks(arrays, with_key=True)]
-                add("chunks%d" % ci,
-                    "map (fun ck => (tabulate (fst ck), snd ck)) (gen_output_chunks %s %s (fun i => nth i [%s] dummy_t))" % (
-                        st, out, "; ".join(tens_lit(a) for a in slices)),
-                    coq(chunks), rec, "gen_output_chunks(with_key=True)")
-            except Exception as e:
-                ctx.fail("gen_output_chunks raised %r" % (e,), rec)
-        # oracle
-        if check_oracle(ctx, rng, rec, inputs, output, size_dict, tree, arrays, slices):
+        try:
+            one_network(ctx, rng, ci, rec, inputs, output, size_dict, tree, ops, raises, sis, add, oracle_bad)
+        except Exception as e:   # the implementation must not raise on a validly sliced tree
+            import traceback
+            ctx.fail("implementation raised on a sliced tree: %r" % (e,),
+                     dict(rec, traceback=traceback.format_exc()[-1500:]))
             oracle_bad.add(ci)
         ctx.case((inputs, output, tuple(sorted(size_dict.items())), path, tuple(ops)),
                  nontrivial=bool(sis) and (len(sis) >= 2 or bool(feats & {"sliced_output", "sliced_hyper", "sliced_leaf_only",
